@@ -131,6 +131,11 @@ func cmdReplay(args []string) int {
 		same = fmt.Sprintf("DIFFERENT class (recorded %q)", rf.Class)
 	}
 	fmt.Printf("REPLAY property=%s class=%q %s: %s\n", rf.Property, v.Class, same, v.Detail)
+	if ex, ok := c.(api.Explainer); ok {
+		if id, err := ex.Explain(rf.Payload); err == nil && id != "" {
+			fmt.Printf("note: this violation lies inside the trigger of open known finding %s\n", id)
+		}
+	}
 	fmt.Printf("VIOLATION property=%s replay=%s\n", rf.Property, args[0])
 	return 1
 }
